@@ -17,7 +17,6 @@ package ocifilter
 import (
 	"context"
 	"io"
-	"path"
 	"strings"
 
 	"cuelabs.dev/go/oci/ociregistry"
@@ -195,5 +194,8 @@ func (r *subRegistry) repo(name string) string {
 		// empty name.
 		return ""
 	}
-	return path.Join(r.prefix, name)
+	// Note: don't use path.Join because that cleans the
+	// path, which could let a name like "../x" escape the prefix
+	// or turn an invalid name into a valid one.
+	return r.prefix + "/" + name
 }
